@@ -25,6 +25,15 @@ def serial_with(tag: str, prefix="9") -> str:
 
 
 def fill_random(sim, lo, hi, rnd, style="random"):
+    if style == "smallconst":
+        # the whole range holds one small integer constant taken from the source under test (boundary-seeking, see env.harvest_ints)
+        from . import env
+        hv = [v for v in env.harvest_ints() if abs(v) <= 1100]
+        v = rnd.choice(hv) & 0xFFFF
+        wide = rnd.random() < 0.5           # as 16-bit words, or as 32-bit values (sign-extended high word first)
+        for k, a in enumerate(range(lo, hi + 1)):
+            sim.regs[a] = v if not wide or k % 2 else (0xFFFF if v & 0x8000 else 0)
+        return
     for a in range(lo, hi + 1):
         if style == "zero":
             v = 0
